@@ -83,6 +83,7 @@ type tworld struct {
 	keys    []string
 	commits []tcommit
 	nval    int
+	misused bool
 }
 
 // state after the first n commits
@@ -151,6 +152,10 @@ func (w *tworld) step(t *ttxn) {
 		}
 		vf.ObsBool(tag+".conflict", errors.Is(err, ErrConflictTxn))
 		vf.Assert("C07.conflict-iff", errors.Is(err, ErrConflictTxn) == expect)
+		if w.misused {
+			// C08: refused calls earlier in the program changed nothing for anybody
+			vf.Assert("C08.misuse-has-no-effect.commit", errors.Is(err, ErrConflictTxn) == expect)
+		}
 		if !expect {
 			vf.Assert("C07.commit-ok", err == nil)
 		}
@@ -185,14 +190,17 @@ func (w *tworld) step(t *ttxn) {
 		t.txn.Discard()
 		t.done = true
 	case opSetExpectRO:
+		w.misused = true
 		vf.Assert("C08.readonly-set", errors.Is(t.txn.Set(k, []byte{1}), ErrReadOnlyTxn))
 		vf.Assert("C08.readonly-delete", errors.Is(t.txn.Delete(k), ErrReadOnlyTxn))
 	case opEmptyKey:
+		w.misused = true
 		vf.Assert("C08.emptykey-set", errors.Is(t.txn.Set("", []byte{1}), ErrEmptyKey))
 		vf.Assert("C08.emptykey-delete", errors.Is(t.txn.Delete(""), ErrEmptyKey))
 		_, ok := t.txn.Get("")
 		vf.Assert("C08.emptykey-get", !ok)
 	case opSetAfterFinish:
+		w.misused = true
 		vf.Assert("C08.finished-set", errors.Is(t.txn.Set(k, []byte{1}), ErrDiscardedTxn))
 		vf.Assert("C08.finished-delete", errors.Is(t.txn.Delete(k), ErrDiscardedTxn))
 	case opCommitAfterFinish:
@@ -245,7 +253,9 @@ func VH_TXN() {
 	total := 0
 	for i := range ts {
 		var sc tscript
-		if fix := vf.Param("LIBFIX", 0); fix > 0 {
+		if si := vf.Param(fmt.Sprintf("S%d", i), -1); si >= 0 {
+			sc = tlibrary[si]
+		} else if fix := vf.Param("LIBFIX", 0); fix > 0 {
 			// fixed scripts: decimal digits of LIBFIX (e.g. 23: long reader + multi-key writer)
 			d := fix
 			for k := 0; k < nt-1-i; k++ {
@@ -262,17 +272,22 @@ func VH_TXN() {
 	if vf.Param("UPDATEERR", 0) == 1 {
 		updErrAt = vf.Choose("updateErrAt", 0, total)
 	}
-	extraAt := -1
-	if vf.Param("EXTRA", 0) == 1 {
+	extraAt, extraAt2 := -1, -1
+	if vf.Param("EXTRA", 0) >= 1 {
 		extraAt = vf.Choose("extraCommitAt", 0, total)
+	}
+	if vf.Param("EXTRA", 0) >= 2 {
+		extraAt2 = vf.Choose("extraCommitAt2", extraAt, total)
 	}
 	errClosure := errors.New("closure failed")
 	for s := 0; s <= total; s++ {
-		if s == extraAt {
-			// an unrelated third transaction commits here (its key is outside the scripts' keys)
-			xv := []byte{vf.Byte("extra")}
-			vf.Assert("TXN.extra-commit", db.Update(func(txn *Txn) error { return txn.Set("zz", xv) }) == nil)
-			w.commits = append(w.commits, tcommit{val: map[string][]byte{"zz": xv}, del: map[string]bool{}})
+		for rep := 0; rep < 2; rep++ {
+			if (rep == 0 && s == extraAt) || (rep == 1 && s == extraAt2) {
+				// an unrelated transaction commits here (its key is outside the scripts' keys)
+				xv := []byte{vf.Byte(fmt.Sprintf("extra%d", rep))}
+				vf.Assert("TXN.extra-commit", db.Update(func(txn *Txn) error { return txn.Set("zz", xv) }) == nil)
+				w.commits = append(w.commits, tcommit{val: map[string][]byte{"zz": xv}, del: map[string]bool{}})
+			}
 		}
 		if s == updErrAt {
 			// C08: an Update whose closure returns an error applies nothing
